@@ -111,8 +111,12 @@ def le_to_128_be(uuid_bytes_le: bytes) -> bytes:
     return be.rjust(4, b'\0') + BASE_UUID_BE[4:]
 
 
+_PRINTABLE = bytes(range(0x20, 0x7F))
+
+
 def text_bytes(length: int, seed: int) -> bytes:
-    return bytes(((seed + i * 7 + (i >> 8)) & 0x7F) | 0x20 for i in range(length))
+    off = seed % len(_PRINTABLE)
+    return (_PRINTABLE * ((length + off) // len(_PRINTABLE) + 1))[off : off + length]
 
 
 # -- description normalisation ------------------------------------------------
@@ -342,24 +346,41 @@ def mtu_strategy():
 
 
 def element_strategy():
-    width = st.sampled_from([2, 4, 16])
-    uuid = st.tuples(st.just('u'), st.integers(0, 19), width)
-    leaf = st.one_of(
-        uuid,
-        uuid,
-        uuid,
-        st.tuples(st.just('i'), st.integers(0, 2**64 - 1), st.sampled_from([1, 2, 4, 8])),
-        st.tuples(st.just('s'), st.integers(0, 2**64 - 1), st.sampled_from([1, 2, 4, 8])),
-        st.tuples(st.just('t'), st.integers(0, 40), st.integers(0, 255)),
-        st.tuples(st.just('l'), st.integers(0, 20), st.integers(0, 255)),
-        st.tuples(st.just('b'), st.booleans()),
-        st.tuples(st.just('n')),
-    )
-    return st.recursive(
-        leaf,
-        lambda ch: st.tuples(st.sampled_from(['q', 'q', 'q', 'a']), st.lists(ch, max_size=4)),
-        max_leaves=8,
-    )
+    """One drawn integer per attribute value; decode_element() turns it into a description."""
+    return st.integers(0, 2**96 - 1).map(decode_element)
+
+
+def decode_element(bits: int):
+    """Deterministic decoder: digits of `bits` choose types, sizes and nesting (depth <= 3)."""
+    state = [bits]
+
+    def take(n: int) -> int:
+        v = state[0] % n
+        state[0] //= n
+        return v
+
+    def element(depth: int):
+        k = take(14)
+        if k >= 11 and depth < 3:
+            tag = 'a' if take(4) == 0 else 'q'
+            return (tag, [element(depth + 1) for _ in range(take(4))])
+        if k <= 3 or k >= 11:
+            return ('u', take(20), (2, 4, 16)[take(3)])
+        if k == 4:
+            return ('i', take(2**32) * 0x100000001 + take(7), (1, 2, 4, 8)[take(4)])
+        if k == 5:
+            return ('s', take(2**32) * 0x100000001 + take(7), (1, 2, 4, 8)[take(4)])
+        if k == 6:
+            return ('t', take(41), take(256))
+        if k == 7:
+            return ('l', take(21), take(256))
+        if k == 8:
+            return ('b', bool(take(2)))
+        if k == 9:
+            return ('n',)
+        return ('q', [('u', take(20), (2, 4, 16)[take(3)]) for _ in range(1 + take(3))])
+
+    return element(0)
 
 
 ATTR_IDS = [0x0000, 0x0001, 0x0001, 0x0002, 0x0003, 0x0004, 0x0005, 0x0006, 0x0009, 0x0100, 0x0101, 0x0200, 0x0311,
@@ -796,8 +817,17 @@ def _same(kind, exp, got) -> bool:
 # ===========================================================================
 # Parts 2 + 3: AVDTP / AVCTP fragmentation and reassembly
 # ===========================================================================
+_P256 = bytes(range(256))
+_P251 = bytes((i * 7 + 3) & 0xFF for i in range(251))
+
+
 def payload_bytes(length: int, seed: int) -> bytes:
-    return bytes((seed + i * 3 + (i >> 7)) & 0xFF for i in range(length))
+    """Deterministic content with period lcm(256, 251): equal-sized fragments differ."""
+    if length == 0:
+        return b''
+    a = (_P256 * ((length + seed) // 256 + 1))[seed : seed + length]
+    b = (_P251 * (length // 251 + 1))[:length]
+    return (int.from_bytes(a, 'big') ^ int.from_bytes(b, 'big')).to_bytes(length, 'big')
 
 
 FAULTS = ['drop', 'dup', 'label', 'type', 'truncate', 'stray_continue', 'stray_end']
